@@ -116,6 +116,12 @@ def step (st : St) (pre post : List String) : St × Verdict :=
         else (st, .propfail "historical-view-writes-live-transient" s!"transient-not-empty-at-block-start: run {id} store {store}: {post}")
       | _ => (st, .bad "not transient")
     | none => (st, .bad "tstart")
+  -- an abandoned block followed by LoadLatestVersion on the same instance: the uncommitted transient writes
+  -- are dropped with the rest of the in-flight state (the last commit id itself is compared at the next commit)
+  | ["reload", id, store] =>
+    match post with
+    | "true" :: "0" :: "~" :: _ => (st, .ok)
+    | _ => (st, .propfail "transient-survives-reload" s!"run {id} store {store}: after an abandoned block and LoadLatestVersion the transient store holds {post}")
   | ["commit", id] =>
     match id.toNat? >>= findRun st, post with
     | some r, [ver, hash, lver, lhash, infos, tsz] =>
